@@ -11,7 +11,8 @@ CG = 'codegen.c'
 def rest(P, rep):
     pu = P.unit(PP)
     from .lib_c18c import r188
-    return (('R18.8', r188, (P, rep)), ('R18.4', r184, (P, rep)), ('R18.5', r185, (P, rep)),
+    from .lib_c18d import r189
+    return (('R18.8', r188, (P, rep)), ('R18.9', r189, (P, rep)), ('R18.4', r184, (P, rep)), ('R18.5', r185, (P, rep)),
             ('R18.6', r186_handlers, (P, pu, rep)), ('R18.6', r186_line_marker, (P, pu, rep)), ('R18.6', r186_origin, (P, pu, rep)),
             ('R18.7', r187, (P, rep)))
 
